@@ -42,7 +42,7 @@ HELPERS = dict(
     truthy=bool, isempty=lambda s: len(s) == 0, keys=lambda m: set(m), seq_eq=lambda a, b: list(a) == list(b),
     distinct=lambda l: len(set(l)) == len(list(l)), subset=lambda a, b: set(a) <= set(b), elems=lambda l: set(l), some=lambda x: x,
     nodes=lambda g: set(g) | set(x for v in g.values() for x in v), union=lambda a, b: set(a) | set(b), diff=lambda a, b: set(a) - set(b),
-    disjoint=lambda a, b: not (set(a) & set(b)), INT=None, STR=None, BOOL=None, PY=None, store=lambda m, k, v: dict(m, **{}) if False else _store(m, k, v), uf=_uf, __same=_same)
+    disjoint=lambda a, b: not (set(a) & set(b)), INT=None, STR=None, BOOL=None, PY=None, __eq=lambda a, b: a == b, store=lambda m, k, v: dict(m, **{}) if False else _store(m, k, v), uf=_uf, __same=_same)
 
 
 def _store(m, k, v):
@@ -86,6 +86,9 @@ class Tr(ast.NodeTransformer):
 
     def visit_Compare(self, n):
         n = self.generic_visit(n)
+        if len(n.ops) == 1 and isinstance(n.ops[0], (ast.Eq, ast.NotEq)):
+            call = ast.Call(ast.Name("__eq", ast.Load()), [n.left, n.comparators[0]], [])
+            return call if isinstance(n.ops[0], ast.Eq) else ast.UnaryOp(ast.Not(), call)
         if len(n.ops) == 1 and isinstance(n.ops[0], (ast.Is, ast.IsNot)) and not (isinstance(n.comparators[0], ast.Constant) and n.comparators[0].value is None):
             call = ast.Call(ast.Name("__same", ast.Load()), [n.left, n.comparators[0]], [])
             return call if isinstance(n.ops[0], ast.Is) else ast.UnaryOp(ast.Not(), call)
@@ -125,7 +128,24 @@ def evaluate(text, env, pre_env, memo, universe):
         if a is b or memo.get(id(a), a) is b or memo.get(id(b), b) is a:
             return True
         return type(a) is type(b) and isinstance(a, (int, str, float, bool, bytes, type(None), tuple, frozenset)) and a == b
-    g.update(__dom=dom, __old=old, __same=same)
+    def deep_eq(x, y):
+        """== across the snapshot: objects that compare by identity (exceptions, components) are equal to their snapshot copies"""
+        if same(x, y):
+            return True
+        if isinstance(x, dict) and isinstance(y, dict):
+            return len(x) == len(y) and all(any(deep_eq(k, k2) and deep_eq(v, y[k2]) for k2 in y) for k, v in x.items())
+        if isinstance(x, (list, tuple)) and isinstance(y, (list, tuple)):
+            return len(x) == len(y) and all(deep_eq(u, v) for u, v in zip(x, y))
+        if isinstance(x, (set, frozenset)) and isinstance(y, (set, frozenset)):
+            return len(x) == len(y) and all(any(deep_eq(u, v) for v in y) for u in x)
+        try:
+            return bool(x == y)
+        except Exception as ex:
+            raise NotEvaluable("== raised %s" % type(ex).__name__)
+
+    def seq_eq(x, y):
+        return deep_eq(list(x), list(y))
+    g.update(__dom=dom, __old=old, __same=same, seq_eq=seq_eq, __eq=deep_eq)
     try:
         return bool(eval(code, g))
     except NotEvaluable:
@@ -402,7 +422,50 @@ def area_rpm():
             check_call(I + "::InstalledRpm." + op, lambda: getattr(a, op)(b), dict(self=a, other=b))
 
 
-AREAS = {"rpm": area_rpm, "responses": area_responses, "obfuscators": area_obfuscators, "dr": area_dr, "config": area_config, "blacklist": area_blacklist, "parsr": area_parsr}
+def area_faults():
+    """C03: Broker.add_exception (where an exception is recorded) and Broker.fire_observers (nothing an observer raises escapes)"""
+    import functools
+    from insights.core import dr
+    from insights.core.exceptions import MissingRequirements, SkipComponent
+    M = "insights/core/dr.py"
+    comps = ["c%d" % i for i in range(3)]
+
+    def boom(c, b):
+        raise RuntimeError("observer")
+
+    class Callable(object):
+        def __call__(self, c, b):
+            raise ValueError("callable object observer")
+    from insights.core import plugins
+    real = []
+    for i in range(2):
+        def body(*a):
+            return 1
+        body.__name__ = body.__qualname__ = "xc_obs%d" % i
+        body.__module__ = "verif_xc_faults"
+        real.append(plugins.component()(body))
+    G = dict(MissingRequirements=MissingRequirements, SkipComponent=SkipComponent,
+             isinstance_exc=lambda e, cls: isinstance(e, cls))
+    for _ in range(300):
+        b = dr.Broker()
+        for c in comps:
+            if rnd.random() < 0.4:
+                b.exceptions[c].append(RuntimeError("old"))
+            if rnd.random() < 0.3:
+                b.missing_requirements[c] = ([c], [])
+        c = rnd.choice(comps)
+        ex = rnd.choice([RuntimeError("x"), MissingRequirements(([c], [[c]])), SkipComponent("s"), ValueError("v")])
+        tb = rnd.choice([None, "traceback text"])
+        uni = {"Ref_Broker": [b], "Comp": comps}
+        check_call(M + "::Broker.add_exception", lambda: b.add_exception(c, ex, tb), dict(self=b, component=c, ex=ex, tb=tb), uni, G)
+        b2 = dr.Broker()
+        for o in rnd.sample([boom, functools.partial(boom), Callable(), (lambda c_, b_: None)], rnd.randint(0, 4)):
+            b2.add_observer(o, rnd.choice([dr.ComponentType, plugins.component]))
+        rc = rnd.choice(real)          # a real component: observers fire for components of the observed type (or a sub-type)
+        check_call(M + "::Broker.fire_observers", lambda: b2.fire_observers(rc), dict(self=b2, component=rc), {"Ref_Broker": [b2], "Comp": real}, G)
+
+
+AREAS = {"faults": area_faults, "rpm": area_rpm, "responses": area_responses, "obfuscators": area_obfuscators, "dr": area_dr, "config": area_config, "blacklist": area_blacklist, "parsr": area_parsr}
 AREAS[area]()
 print(json.dumps({"ok": True, "area": area, "calls": stats["calls"], "clauses_evaluated": stats["clauses_evaluated"], "clauses_skipped": stats["clauses_skipped"],
                   "functions": sorted(stats["functions"]), "skipped_because": sorted(stats["skipped_examples"])[:12]}))
